@@ -54,6 +54,10 @@ pub fn from_data(d: &ArrayData) -> Option<Node> {
 /// [validate_full verdict] ++ tree
 pub fn dump(a: &dyn Array) -> Option<Args> {
     let d = a.to_data();
+    // the specification validator counts lengths in (unary, once extracted) `nat`: an array whose logical length is
+    // huge (e.g. a run array whose single run end is i32::MAX) cannot be evaluated by it; such outputs are not compared
+    fn too_long(d: &arrow_data::ArrayData) -> bool { d.len().saturating_add(d.offset()) > (1 << 20) || d.child_data().iter().any(too_long) }
+    if too_long(&d) { return None; }
     let node = from_data(&d)?;
     let vf = d.validate_full();
     if let (Err(e), true) = (&vf, std::env::var("VERIF_PANIC_MSG").is_ok()) { eprintln!("validate_full of a returned array: {e}"); }
